@@ -435,6 +435,13 @@ theorem eq_todict_self [DecidableEq V] (s : OMD K V) (h : Inv s) :
   rw [spec_eqMapping_iff s.cells _ (by rw [dkeys, items_fst]; exact nodup_dedup _)]
   exact fun k => dget_items s.cells k
 
+/-- `repr(omd)` is the class name applied to the list display of the pairs, in order, and that list
+    handed to the constructor gives a dictionary equal to the original (`eval(repr(omd)) == omd` whenever the
+    `repr` of the keys and values evaluates back to them) -/
+theorem repr_spec [DecidableEq V] (s : OMD K V) (h : Inv s) (cn : String) (rk : K → String) (rv : V → String) :
+    s.reprText cn rk rv = Spec.reprText cn rk rv s.cells ∧ (OMD.fromPairs s.itemsM).eqOMD s = true :=
+  ⟨rfl, (eq_omd_iff _ s (fromPairs_spec _).1 h).mpr (fromPairs_spec _).2⟩
+
 /-! ## derived dictionaries -/
 
 /-- `inverted()` is a consistent dictionary holding the swapped pairs in the same order -/
@@ -738,5 +745,8 @@ example : let o0 : Own Nat Nat := (Own.empty.callerNew [1, 2]).1
 /-- what seeded defect C01-10 amounts to (the dict adopting the caller's list object 0): `Sep` is violated and the write shows -/
 example : let bad : Own Nat Nat := ⟨[(7, 0)], [(0, [1, 2])], 1, [0]⟩
     ¬ (∀ i ∈ bad.ids, i ∉ bad.caller) ∧ (bad.callerWrite 0 [9]).vals = [(7, [9])] := by decide
+
+example : (OMD.fromPairs [(0, 1), (1, 2), (0, 3)] : OMD Nat Nat).reprText "OrderedMultiDict" toString toString =
+    "OrderedMultiDict([(0, 1), (1, 2), (0, 3)])" := by decide
 
 end C01
